@@ -118,6 +118,11 @@ fn main() {
                 "c05" => c05::replay(case),
                 "c09" => c09::replay(case),
                 "c10-helper" => c10::replay_helper(case),
+                "c19" => {
+                    let _ = report::RERUN_SIGNATURE.set(v["signature"].as_str().unwrap_or("").to_string());
+                    println!("re-running the quick catalogue of C19 ...");
+                    c19::run(Tier::Quick)
+                }
                 "c10" | "c11" | "c12" | "derived" => hist::replay_by_search(v["property"].as_str().unwrap_or(""), case),
                 "c20" => c20::replay(case),
                 "c18" => c18::replay(case),
